@@ -69,8 +69,8 @@ func main() {
 	m.Rule = "generated programs with calls of CLOSER(id) (a tracked closable) injected at binding sites: top-level LET, LET _ , LET inside loops, loop sources, the returned value; each program is run with no injection, with the context cancelled before the run, and for every k below min(calls, cap) with a cancellation / an error / a string panic / an error panic / another panic at the k-th instrumented call; a case is non-trivial when at least one closable is bound; distinct = distinct (query, injection)"
 	c := compiler.New()
 	fqlrun.Register(c)
-	params := map[string]interface{}{"n": 2, "arr": []interface{}{3, 1, 2, 1}, "obj": map[string]interface{}{"a": 1, "list": []interface{}{1, 2}}, "s": "k", "f": 1.5}
-	pcoq := `[(hx "6e", VInt 2); (hx "617272", VArr [VInt 3; VInt 1; VInt 2; VInt 1]); (hx "6f626a", VObj [(hx "61", VInt 1); (hx "6c697374", VArr [VInt 1; VInt 2])]); (hx "73", VStr (hx "6b")); (hx "66", VFloat 4609434218613702656%N)]`
+	params := map[string]interface{}{"n": 2, "arr": []interface{}{3, 1, 2, 1}, "obj": map[string]interface{}{"a": 1, "list": []interface{}{1, 2}}, "s": "k", "f": 1.5, "big": []interface{}{2, 1, 2, 1}}
+	pcoq := `[(hx "626967", VArr [VInt 2; VInt 1; VInt 2; VInt 1]); (hx "6e", VInt 2); (hx "617272", VArr [VInt 3; VInt 1; VInt 2; VInt 1]); (hx "6f626a", VObj [(hx "61", VInt 1); (hx "6c697374", VArr [VInt 1; VInt 2])]); (hx "73", VStr (hx "6b")); (hx "66", VFloat 4609434218613702656%N)]`
 	distinct := map[string]struct{}{}
 	var files []string
 	var idx []interface{}
